@@ -190,14 +190,17 @@ func checkScalar(c scase) *vk.Failure {
 			return nil
 		}
 		w, decided := relRef(delta, mx, tol)
+		if delta <= minNormal {
+			// documented: "A difference not greater than the smallest normal
+			// float64, 2^-1022, is compared with tol times that number instead"
+			vk.Class(c.Fn + "/tiny-difference")
+			w, decided = delta <= tol*minNormal, true
+		}
 		if !decided {
 			vk.Class(c.Fn + "/rounding-boundary")
 			return nil
 		}
 		if g != w {
-			if delta <= minNormal {
-				return vk.Failf(key+"/tiny-difference", "EqualWithinRel(%v, %v, %v) = %v but |a-b| = %g and tol*max(|a|,|b|) = %g", za, zb, tol, g, delta, tol*mx)
-			}
 			return vk.Failf(key+"/value", "EqualWithinRel(%v, %v, %v) = %v; |a-b| = %g, tol*max = %g", za, zb, tol, g, delta, tol*mx)
 		}
 	case "scalar.EqualWithinAbsOrRel":
